@@ -734,12 +734,17 @@ func (w *c10World) monitor(out *vh.Out, op string, acc *c10Accepted, strictEnv b
 	seen := w.tgt.seen
 	w.tgt.mu.Unlock()
 	expectTo := append([]string{}, acc.to...)
+	// the property speaks of "the recipients still pending": compared as a multiset, not as a sequence
 	eqL := func(a, b []string) bool {
 		if len(a) != len(b) {
 			return false
 		}
-		for i := range a {
-			if a[i] != b[i] {
+		x := append([]string{}, a...)
+		y := append([]string{}, b...)
+		sort.Strings(x)
+		sort.Strings(y)
+		for i := range x {
+			if x[i] != y[i] {
 				return false
 			}
 		}
